@@ -153,6 +153,11 @@ class Lin:
                     f = self.field_of(b, s['lhs'])
                     if f:
                         self.stored_fields.add(f)
+                if s['k'] == 'assign' and s['rv']['k'] in ('ref', 'rawptr') and s['rv'].get('bk') in ('mut', 'Mut', None) and sig_ty(s['rv']['pl'].get('ty')):
+                    # a field lent out mutably (`&mut self.ic1eq` handed to a helper) is state, not configuration
+                    f = self.field_of(b, s['rv']['pl'])
+                    if f and (s['rv'].get('bk') == 'mut' or s['rv']['k'] == 'rawptr'):
+                        self.stored_fields.add(f)
             for bb, t in b.calls():
                 cp = callee_path(t) or ''
                 if cp in FRAME_ASSIGN or cp.split('::')[-1] in ('copy_from_slice', 'fill', 'index_mut', 'iter_mut', 'deref_mut', 'chunks_mut'):
